@@ -68,10 +68,16 @@ def order_escapes(ctx, src_expr, src_func):
             name = par.func.id if isinstance(par.func, ast.Name) else (par.func.attr if isinstance(par.func, ast.Attribute) else None)
             if name in ORDER_CALLS or name == "join":
                 out.append((e, f, "passed to %s()" % name))
+            elif name in ("extend", "writelines", "from_iterable") or (name == "update" and False):
+                out.append((e, f, "consumed in iteration order by .%s()" % name))
         elif isinstance(par, ast.Attribute) and par.value is e and par.attr == "pop":
             out.append((e, f, ".pop() of a set"))
         elif isinstance(par, ast.Starred):
             out.append((e, f, "unpacked"))
+        elif isinstance(par, ast.BinOp) and isinstance(par.op, ast.Add):
+            out.append((e, f, "concatenated"))
+        elif isinstance(par, ast.AugAssign) and par.value is e and isinstance(par.op, ast.Add):
+            out.append((e, f, "appended with += (iteration order)"))
         elif isinstance(par, (ast.Yield, ast.YieldFrom)) and isinstance(par, ast.YieldFrom):
             out.append((e, f, "yield from a set"))
     return out
@@ -177,3 +183,65 @@ def random_is_last_resort(ctx, f, call):
             todo.append(cs.func)
     return False, "random value reaches the output without first exhausting the four default shape prefixes " \
                   "(for p in _PRIORITY_PREFIXES_FOR_SHAPES: if p not in taken: return p)"
+
+
+RDFLIB_ORDERED_BY_HASH = {"triples", "query", "subjects", "objects", "predicates", "subject_objects", "subject_predicates",
+                          "predicate_objects", "triples_choices"}
+
+
+def rdflib_iteration(ctx, clause):
+    """rdflib's in-memory store (6.x) keeps the triples of a graph in hash-ordered containers: iterating a Graph, or the
+    result of Graph.triples()/query()/..., yields them in an order that changes with PYTHONHASHSEED.  Every API-reachable
+    loop or comprehension in the package that does so hands that order to the extraction (first-seen order decides the
+    order of equally frequent constraints, of shapes, and which example is kept)."""
+    r, g = ctx.r, ctx.flow
+    obs, n = [], 0
+
+    def graph_typed(e, f):
+        try:
+            return ("ext", "Graph") in r.type_of(e, f) or ("ext", "ConjunctiveGraph") in r.type_of(e, f)
+        except Exception:
+            return False
+
+    for f in ctx.p.funcs.values():
+        if not ctx.reachable(f):
+            continue
+        defs = {}
+        for x in walk_own(f.node):
+            if isinstance(x, ast.Assign) and len(x.targets) == 1 and isinstance(x.targets[0], ast.Name):
+                defs.setdefault(x.targets[0].id, []).append(x.value)
+        seen = set()
+        for x in walk_own(f.node):
+            its = []
+            if isinstance(x, ast.For):
+                its.append(x.iter)
+            elif isinstance(x, (ast.ListComp, ast.GeneratorExp, ast.SetComp, ast.DictComp)):
+                its += [c.iter for c in x.generators]
+            for it in its:
+                cands = [it] + (defs.get(it.id, []) if isinstance(it, ast.Name) else [])
+                hit, whole = None, False
+                for c in cands:
+                    if graph_typed(c, f):
+                        hit, whole = "the graph itself", True
+                    elif isinstance(c, ast.Call) and isinstance(c.func, ast.Attribute) and c.func.attr in RDFLIB_ORDERED_BY_HASH \
+                            and graph_typed(c.func.value, f):
+                        hit = "Graph.%s()" % c.func.attr
+                        # a pattern with at least one bound position is answered from the store's nested dictionaries
+                        # (insertion order); only the all-wildcard pattern walks the hash-ordered set of triples
+                        if c.func.attr == "triples" and c.args and isinstance(c.args[0], ast.Tuple):
+                            whole = all(isinstance(el, ast.Constant) and el.value is None for el in c.args[0].elts)
+                if hit is None:
+                    continue
+                key = "R-DET|rdflib-order|%s|%s" % (f.short, hit)
+                if key in seen:
+                    continue
+                seen.add(key)
+                n += 1
+                obs.append(Ob(clause, "R-DET", key, f.loc(it), not whole,
+                              "%s reads %s of an rdflib graph with a bound position (or through a query): answered from rdflib's "
+                              "insertion-ordered indexes (trusted; an all-variable SPARQL pattern is not decided)" % (f.short, hit)
+                              if not whole else
+                              "%s iterates %s of an rdflib graph (`%s`): rdflib's memory store yields the triples of a whole graph in "
+                              "hash order, so the order in which the extraction sees them - hence the order of equally frequent "
+                              "constraints, of shapes, and the examples kept - changes from one process to the next" % (f.short, hit, norm(it)[:40])))
+    return obs, n
